@@ -2,6 +2,7 @@
 from . import shared as S
 
 META = {
+    'claim_added': 'Also decided: every recogniser exit returns a (verdict, error) pair.',
     'level': 'other',
     'technique': 'static: candidate-loop shape (no early exit, set accumulation), abstract cardinality evaluation of the '
                  'guards of every verdict return, must-pass-through for child judgement and tag tests, decision table of '
